@@ -135,6 +135,27 @@ func renderNodeWithContext(ctx VueContext, w io.Writer, node *html.Node, indent 
 			_, _ = w.Write([]byte(spaces + node.Data))
 		}
 
+	case html.DoctypeNode:
+		doctype := "<!DOCTYPE " + node.Data
+		var public, system string
+		for _, a := range node.Attr {
+			switch a.Key {
+			case "public":
+				public = a.Val
+			case "system":
+				system = a.Val
+			}
+		}
+		if public != "" {
+			doctype += ` PUBLIC "` + public + `"`
+			if system != "" {
+				doctype += ` "` + system + `"`
+			}
+		} else if system != "" {
+			doctype += ` SYSTEM "` + system + `"`
+		}
+		_, _ = w.Write([]byte(doctype + ">\n"))
+
 	case html.ElementNode:
 		// Count children without allocating slice
 		childCount := 0
